@@ -15,6 +15,8 @@ EXPLANATION = ('(1) Reservation/pool balance (and `size` is modified only by ato
                'Drop for MemoryReservation reaches free, Drop for SharedRegistration reaches unregister. (4) MemoryReservation has '
                'no Clone/Copy impl, private fields, and is constructed only by register/split/new_empty. Concurrent clauses (peak '
                'under interleaving, fair-share arithmetic) are not decided.')
+# path rules cut loops after a bounded number of iterations: complete over rule instances, not over all unrollings
+EXHAUSTIVE = False
 ASSUMPTIONS = ['closures handed to HashMap::entry().and_modify() are invoked by the callee',
                'amount identity is compared by the symbolic name of the operand (parameter / local)']
 
